@@ -167,6 +167,10 @@ func (s *Stump) add(adds []Hash) ([]Hash, []uint64, []uint64) {
 		// In this loop below, we're looking for these roots by checking if there's
 		// a '1'. If there is a '1', we'll hash the root being added with that root
 		// until we hit a '0'.
+		// The added leaf is always a created node. It's overwritten with the
+		// same position below if it gets hashed with an existing root.
+		updatedNodes[add] = pos
+
 		newRoot := add
 		for h := uint8(0); (s.NumLeaves>>h)&1 == 1; h++ {
 			root := s.Roots[len(s.Roots)-1]
